@@ -291,7 +291,7 @@ def generate(unit_dir, canary=False):
             if attrs["kind"] == "region":
                 ex = X.extract_region(path, attrs["in"], attrs.get("impl"), attrs["from"], attrs["to"], int(attrs.get("from_nth", 0)), int(attrs.get("to_nth", 0)), attrs.get("to_exclusive") == "yes")
             else:
-                ex = X.extract(path, attrs["kind"], attrs["name"], attrs.get("impl"))
+                ex = X.extract(path, attrs["kind"], attrs["name"], attrs.get("impl"), attrs.get("in_fn"))
         except (X.ExtractError, FileNotFoundError, ValueError) as e:
             raise Undecided("lost-anchor", "%s: %s" % (item_id, e))
         try:
@@ -390,7 +390,7 @@ def identity_check(gen):
         n5 = [x for x in it["rules_applied"] if x.get("rule") == "N5"]
         if n5:
             back = X.invert_n5(back, n5)
-        pre = [x for x in it["rules_applied"] if x.get("rule") in ("O1", "N4", "N2b")]
+        pre = [x for x in it["rules_applied"] if x.get("rule") in ("O1", "N4", "N2b", "N3")]
         if pre:
             back = X.invert_prepass(back, pre)
         want = X.token_texts(it["raw_text"])
